@@ -1,3 +1,4 @@
+pub mod c08;
 pub mod c14;
 pub mod c15;
 pub mod c17;
@@ -9,6 +10,7 @@ use crate::driver::PropDef;
 
 pub fn lookup(id: &str) -> Option<&'static PropDef> {
     match id {
+        "C08" => Some(&c08::DEF),
         "C14" => Some(&c14::DEF),
         "C15" => Some(&c15::DEF),
         "C17" => Some(&c17::DEF),
